@@ -17,6 +17,18 @@ RULE = ("histories of up to 8 MergeDocument/Documents/OutputDocuments/Output(fmt
 FMTS = ["json", "yaml", "toml", "json-pretty", "jsonl", "yml"]
 
 
+def list_doc(rng):
+    """list-rooted documents whose entries are evaluated (references into other documents, $repeat, $encode)"""
+    k = rng.below(4)
+    if k == 0:
+        return ["header", {"svc": "web", "$merge": {"$match": {"name": "D0"}, "$path": "t"}}]
+    if k == 1:
+        return [{"a": {"$replace": [{"name": "D0"}, "name"]}}, {"$repeat": 2, "i": "$repeat"}, "tail"]
+    if k == 2:
+        return [1, {"x": {"$merge": {"$match": {"name": "D0"}}}, "own": True}, {"$encode": "json"}]
+    return [{"$output": True, "k": 1}, {"deep": [{"m": {"$merge": {"$match": {"name": "D0"}, "$path": "t"}}}]}]
+
+
 def feature_doc(rng):
     k = rng.below(7)
     if k == 0:
@@ -49,6 +61,13 @@ def gen_case(rng):
         ops.append(["merge", idx])
         base_idx.append(idx)
         idx += 1
+    if rng.chance(1, 4):
+        # a list-rooted document after a map document it refers to
+        if isinstance(ops[0][3], dict):
+            ops[0][3].setdefault("t", {"x": 1, "l": [1]})
+        ops.append(["new", "lst|doc", [], list_doc(rng)])
+        ops.append(["merge", idx])
+        idx += 1
     if nbase == 2 and rng.chance(1, 2):
         # cross-document reference from the second document into the first
         ops[2][3] = dict(ops[2][3]) if isinstance(ops[2][3], dict) else {"v": ops[2][3]}
@@ -67,6 +86,8 @@ def gen_case(rng):
             ops.append(["docs"])
         else:
             layer = {rng.pick(["extra", "n", "more"]): rng.pick([1, "s", {"k": 1}, [1]])}
+            if rng.chance(1, 3):
+                layer = {"$match": {"name": "D0"}, "t": {"x": rng.pick([7, 8, "changed"])}}
             if rng.chance(1, 4):
                 layer = {"$repeat": rng.below(4)}
             ops.append(["new", "l|doc%d" % idx, list(prev), layer])
